@@ -84,6 +84,23 @@ fn main() {
                 .collect();
             engine::parent_c18(scn.as_ref(), tier_of(&args[2]), seed, &bins)
         }
+        "corpus-file" => {
+            // rngsim corpus-file <file with a JSON array of specs> [from]: one line "i digest" per spec,
+            // flushed, so that the parent knows which spec was running if the process is killed
+            use std::io::Write;
+            let txt = std::fs::read_to_string(&args[2]).expect("read");
+            let specs: Vec<spec::Spec> = serde_json::from_str(&txt).expect("specs");
+            let from: usize = args.get(3).and_then(|s| s.parse().ok()).unwrap_or(0);
+            for (i, sp) in specs.iter().enumerate().skip(from) {
+                println!("RUN {}", i);
+                std::io::stdout().flush().ok();
+                let mut st = spec::Stats::default();
+                let v = props::c18::exec_corpus(sp, &mut st);
+                println!("DIG {} {}", i, v.last().copied().unwrap_or(0));
+                std::io::stdout().flush().ok();
+            }
+            0
+        }
         "corpus-one" => {
             // prints the per-operation digests of one corpus spec (replay file or bare spec)
             let txt = std::fs::read_to_string(&args[2]).expect("read");
